@@ -40,6 +40,11 @@ package k8s
 //@   modifies p.eventBuf, p.eventSize, p.cutOffEvent
 //@   ensures len(p.eventBuf) == 1 && p.eventSize == 0 && !p.cutOffEvent
 
+// While the rest of an over-long line is being skipped (skipNextEvent) a collapsed
+// chunk adds nothing to the buffer: the escape-aware cut may stop short of the limit,
+// and a later small chunk must not be glued behind the skipped bytes.  A time-out
+// ends the run: the skip flag is cleared with the buffer.
+
 //@ func (*MultilineAction).Do
 //@   option allow-exit yes
 //@   option allow-panic yes
@@ -49,7 +54,8 @@ package k8s
 //@   loop 2 invariant len(p.eventBuf) >= 1 && (p.maxEventSize == 0 || (p.maxEventSize >= 3 && len(p.eventBuf) <= p.maxEventSize - 2)) && event != nil
 //@   ensures len(p.eventBuf) >= 1
 //@   ensures p.maxEventSize == 0 || len(p.eventBuf) <= p.maxEventSize - 2
-//@   ensures event.kind == pipeline.EventKindTimeout ==> result == pipeline.ActionDiscard && len(p.eventBuf) == 1
+//@   ensures event.kind == pipeline.EventKindTimeout ==> result == pipeline.ActionDiscard && len(p.eventBuf) == 1 && !p.skipNextEvent
+//@   ensures old(p.skipNextEvent) && result == pipeline.ActionCollapse ==> len(p.eventBuf) == old(len(p.eventBuf))
 //@   assert at "if !isEnd && !shouldSplit" isEnd ==> logFragmentLen >= 3 && logFragment[logFragmentLen - 2] == 'n' && logFragment[logFragmentLen - 3] == '\\'
 //@   assert at "if !isEnd && !shouldSplit" logFragmentLen >= 5 && logFragment[logFragmentLen - 3] == '\\' && logFragment[logFragmentLen - 4] == '\\' && logFragment[logFragmentLen - 5] != '\\' ==> !isEnd
 //@   assert at "if !isEnd && !shouldSplit" logFragmentLen >= 4 && logFragment[logFragmentLen - 2] == 'n' && logFragment[logFragmentLen - 3] == '\\' && logFragment[logFragmentLen - 4] != '\\' ==> isEnd
